@@ -1068,7 +1068,7 @@ pub fn run(ctx: &Ctx) -> i32 {
         st
     });
     stats.merge(lstats);
-    let rule = "cases = masked windows (the same /8 compare-match run with every request accepted at once vs nothing accepted until the end - backlogs of 300 to 70,000 pending requests: equal request counts per vector); proptest-generated histories (up to 300 ops) over {n states elapse (1-255, through the run loop's update_modules), write TCR (all upper bits, clock /8, /64, /8192 or none), write TCNT, TCORA, TCORB, clear flags in TCSR}, the stated precondition constructed (TCORA != TCORB, both non-zero while a compare-match clear source is selected), each history also re-run with the same elapsed time between writes split differently (all 1-state chunks / all 255-state chunks / random). Oracle = tick-by-tick reference with an existential phase: after a clock selection the phase is any constant 0 <= p < divisor; every step splits the candidate phases by predicted tick count and keeps those that reproduce TCNT, TCSR and the multiset of interrupt requests (drained through the real poll); no candidate left = violation; both partitions must agree at every write and be explainable by a common phase. Non-trivial = history with a flag/interrupt event and >= 2 clock changes or a register write while counting; distinct by the op sequence.";
+    let rule = "cases = the empty history on a fresh Cpu (the counter follows whatever TCR reads there); masked windows (the same /8 compare-match run with every request accepted at once vs nothing accepted until the end - backlogs of 300 to 70,000 pending requests: equal request counts per vector); proptest-generated histories (up to 300 ops) over {n states elapse (1-255, through the run loop's update_modules), write TCR (all upper bits, clock /8, /64, /8192 or none), write TCNT, TCORA, TCORB, clear flags in TCSR}, the stated precondition constructed (TCORA != TCORB, both non-zero while a compare-match clear source is selected), each history also re-run with the same elapsed time between writes split differently (all 1-state chunks / all 255-state chunks / random). Oracle = tick-by-tick reference with an existential phase: after a clock selection the phase is any constant 0 <= p < divisor; every step splits the candidate phases by predicted tick count and keeps those that reproduce TCNT, TCSR and the multiset of interrupt requests (drained through the real poll); no candidate left = violation; both partitions must agree at every write and be explainable by a common phase. Non-trivial = history with a flag/interrupt event and >= 2 clock changes or a register write while counting; distinct by the op sequence.";
     let mut extra = Map::new();
     extra.insert("masked_details".into(), json!(["clock selections 4-7 (external clock / cascade) are not generated", "whether the counter is cleared on the matching tick or on the following one (both readings accepted, constant per history)", "TCORA == TCORB or 0 while a compare-match clear source is selected (excluded by the property)"]));
     finish(ctx, P, stats, rule, vec!["interrupt vectors of the timer: 36 (CMIA), 37 (CMIB), 39 (OVI) as the property states".into()], extra)
